@@ -171,6 +171,9 @@ func runParse(c parseCase) harness.Result {
 	if string(exact) != string(c.Data) {
 		return harness.Fail("%s modified its input", e.Name)
 	}
+	if o1.err == nil && e.NilOnError && cat.IsNilValue(o1.val) {
+		return harness.Fail("%s returned neither a decoded value nor an error (nil, nil) for the %d-byte input %x", e.Name, n, []byte(c.Data))
+	}
 	if o1.err != nil && e.NilOnError && !cat.IsNilValue(o1.val) {
 		return harness.Fail("%s returned error %q together with a non-nil value %+v", e.Name, o1.err, o1.val)
 	}
